@@ -177,8 +177,10 @@ def abstract(w):
     queues = {}
     for ch, q in wq.channel2q.items():
         if q:
-            queues[ch] = sorted(([j.priority, j.serial, j.jobid, bool(j.done), wq.id2job.get(j.jobid) is j] for j in q), key=repr)
-    tq = sorted(([round(d - t, 3), j.jobid, wq.id2job.get(j.jobid) is j] for (d, j) in wq.timeoutq if not j.done), key=repr)
+            # (in the order the implementation holds them: a heap laid out wrongly has other futures than one laid out rightly,
+            #  so the layout is part of the state - sorting here once merged a broken restored queue with a sound one)
+            queues[ch] = [[j.priority, j.serial, j.jobid, bool(j.done), wq.id2job.get(j.jobid) is j] for j in q]
+    tq = [[round(d - t, 3), j.jobid, wq.id2job.get(j.jobid) is j] for (d, j) in wq.timeoutq if not j.done]
     conns = {}
     for name, c in w.conns.items():
         g = c.greenlet
